@@ -58,11 +58,11 @@ _CANCEL = []
 
 def _cancel_cases():
     """A caller task is cancelled by ITS caller (task.cancel()) while queued for the protocol, or (TCP) while its
-    request is in flight; the other callers must still be serialised and get their own answers.  UDP with keep-alive
-    off is left out: there the cancelled caller's close() closes the socket of the request in flight (DESIGN 13.11)."""
+    request is in flight; the other callers must still be serialised and get their own answers.  (UDP with keep-alive
+    off failed here until fix a3ca2bb: the cancelled caller's close() closed the socket of the request in flight.)"""
     if not _CANCEL:
         tau, lat = 1.0, DEFAULT_LATENCY
-        for tr, ka in (("udp", True), ("tcp", True), ("tcp", False)):
+        for tr, ka in (("udp", True), ("udp", False), ("tcp", True), ("tcp", False)):
             for r in (0, 1, 2):
                 for a_fault in ({"k": "ok", "d": tau / 2}, {"k": "ok", "d": lat}, {"k": "drop"}):
                     for cancel_at in (EPS, lat / 2, tau / 4):
